@@ -12,7 +12,11 @@ correspondence:  (a) _get_numbers_distance on a grid of special values x max_ an
                  pairing in ignore_order mode): the delta-view dict actually
                  consumed is converted generically to the model's `dv`, the
                  model computes operations / (len1 + len2) and the float is
-                 compared bit for bit.
+                 compared bit for bit; (e) the same dict re-expressed as positions
+                 in t1 / t2 (sdelta): rebuilt in Coq, compared with the real one,
+                 validity and the type-change guard evaluated (hypotheses of
+                 C19_rough_range_partial); (f) zero_guard of
+                 C19_numbers_zero_partial evaluated in Coq and restated in Python.
 direct oracle:   the statement itself on the public API (range, 0/absent for
                  equal inputs, positive for a non-empty default diff, never
                  raises) and on the number/date/time distance functions (range,
